@@ -60,7 +60,10 @@ func (p *TriggerPool) Start(ctx context.Context) context.Context {
 	// context.Done() and context.Err() for context that can be cancelled use a Lock.
 	// To avoid frequent locking - use an atomic.Bool for cancellation instead of checking the
 	// context on each iteration
+	p.manager.runningWorkers.Add(1)
 	go func() {
+		// completion includes accounting for the work discarded on stop
+		defer p.manager.runningWorkers.Done()
 		<-workerCtx.Done()
 		p.stop()
 	}()
